@@ -33,6 +33,12 @@ Dedup(s, acc) == IF s = <<>> THEN acc
                  ELSE IF \E k \in 1 .. Len(acc) : acc[k] = Head(s) THEN Dedup(Tail(s), acc)
                  ELSE Dedup(Tail(s), Append(acc, Head(s)))
 
+NameListFails(nodes, names, want, who) ==
+  LET got == [i \in 1 .. Len(names) |-> names[i][2]]
+  IN   F(ToSet(got) = ToSet(want), who \o "reported variable names are not exactly the identifiers in variable position")
+    \o F(\A i, j \in 1 .. Len(names) : i # j => names[i][1] # names[j][1], who \o "a variable name is reported twice")
+    \o F(\A i \in 1 .. Len(names) : names[i][1] \in Spellings(nodes, names[i][2]), who \o "a reported name is not spelled as in the expression")
+    \o F(ToSet(got) # ToSet(want) \/ Dedup(got, <<>>) = want, who \o "variable names are not reported in order of first occurrence")
 NamesFails(e) ==
   IF RefParse(e.toks) # PostOrder(e.nodes, e.root) THEN "HARNESS: the generated tokens do not denote the generated tree; "
   ELSE IF ~e.lexok \/ e.set # "ok" THEN ""
@@ -40,10 +46,8 @@ NamesFails(e) ==
            got  == [i \in 1 .. Len(e.names) |-> e.names[i][2]]
            newk == [i \in Len(e.before) + 1 .. Len(e.after) |-> e.after[i][2]]
            oldk == {e.before[i][2] : i \in 1 .. Len(e.before)}
-       IN F(ToSet(got) = ToSet(want), "reported variable names are not exactly the identifiers in variable position")
-       \o F(\A i, j \in 1 .. Len(e.names) : i # j => e.names[i][1] # e.names[j][1], "a variable name is reported twice")
-       \o F(\A i \in 1 .. Len(e.names) : e.names[i][1] \in Spellings(e.nodes, e.names[i][2]), "a reported name is not spelled as in the expression")
-       \o F(ToSet(got) # ToSet(want) \/ Dedup(got, <<>>) = want, "variable names are not reported in order of first occurrence")
+       IN NameListFails(e.nodes, e.names, want, "")
+       \o (IF "names_reused" \in DOMAIN e THEN NameListFails(e.nodes, e.names_reused, want, "a parser that parsed another expression before: ") ELSE "")
        \o F(Len(e.after) >= Len(e.before) /\ SubSeq(e.after, 1, Len(e.before)) = e.before,
             "automatic variables changed entries or values that were already in the collection")
        \o F(Len(e.after) < Len(e.before) \/
